@@ -32,6 +32,9 @@ UNITS += _take('C11', ['cur_await_ready', 'is_stopped', 'any_enqueued', 'enqueue
 UNITS += _take('C09', ['qi_push', 'qi_pop', 'qi_unblock_pop', 'qi_size', 'qi_empty', 'qv_push', 'qv_pop'])
 UNITS += _take('C10', ['lq_push', 'lq_pop', 'lq_unblock_push', 'lq_size', 'lq_empty'])
 UNITS += _take('C12', ['schedule', 'get_expired', 'remove', 'interval_stop_cb', 'start_future'])
+# a callback awaiter that is still written after the CAS that publishes it races with the resolving thread that walks the chain: shared_future's
+# resolve tracer (C17 unit `charge`: the self-reference is stored BEFORE the tracer is subscribed - seeded change C03-4)
+UNITS += _take('C17', ['charge'])
 # thorough: every remaining non-bounded unit of the lock-based properties
 for _p in ('C09', 'C10', 'C11', 'C12', 'C16'):
     _have = set(u['name'] for u in UNITS)
